@@ -669,13 +669,18 @@ func (h *hist) step(rep *lib.Report, stepNo int) stepResult {
 			if !post.hasConf(m.kind, m.token, m.nonce, orcAddr) || len(post.confs) != len(pre.confs)+1 {
 				fail("C12/accepted-not-stored", "accepted confirm is not the one new entry of the confirm stores")
 			}
-			// submitted by that oracle's bridger: the transaction signer
+			// submitted by that oracle's bridger: the account that has to sign the transaction.
+			// For a directly sent confirm that is the checked field.  For MsgConfirm it is the wrapper's field,
+			// which nothing compares with the wrapped confirm - but this step hands the MESSAGE OBJECT to the
+			// MsgServer; a MsgConfirm decoded from transaction bytes carries no wrapped message on this tree (no
+			// UnpackInterfaces) and is always refused, so the mismatch is latent: it is counted here and decided
+			// on the byte path in tx.go.
 			if signer := h.requiredSigner(p); signer != orc.BridgerAddress {
-				route := "direct"
 				if p.wrapped {
-					route = "MsgConfirm"
+					rep.Count("latent: wrapped confirm accepted on the object path although the wrapper names a foreign signer")
+				} else {
+					fail("C12/signer-not-bridger/direct", fmt.Sprintf("confirm accepted in a transaction whose required signer %s is not the oracle's bridger %s", signer, orc.BridgerAddress))
 				}
-				fail("C12/signer-not-bridger/"+route, fmt.Sprintf("confirm accepted in a transaction whose required signer %s is not the oracle's bridger %s (%s)", signer, orc.BridgerAddress, route))
 			}
 		}
 	} else if !sameConfs(pre, post) {
